@@ -225,6 +225,19 @@ CHECKS = {
             "Each real-scale proof/verification costs 10-16 s of TLC time: 2 proof families per run quick, 32 x 4 configurations thorough.",
             "TLA+ RFC 9381 spec: exhaustive TLC at toy scale + real-scale TLC trace validation of recorded proofs and verifications",
             "5/C15"),
+    "C12": ("model_checking",
+            "TLC checks toy Schnorr in the Ristretto quotient for EVERY key x nonce x challenge (honest signatures verify under every coset "
+            "representative, any other s or challenge is rejected, canonical key encodings). At real scale the specification composes "
+            "Merlin.tla (Keccak-f written out), Ristretto.tla and the scalar field: TLC recomputes byte for byte recorded key expansions "
+            "(uniform and Ed25519-style), public keys and signatures on the four transcript sources made with one reused signing context, "
+            "re-decides verifications from the bytes (honest, bit flip, other message, s+L, other key, unmarked), judges the five decoders "
+            "on boundary scalars / marker bit / invalid and non-canonical points / mismatched pairs / wrong lengths incl. "
+            "marshal(unmarshal(b)) = b, and validates batch-verifier histories against Batch.tla.",
+            "Trusts TLC/SANY and the composed modules (each bound to the code separately by C05, C11, C13), SHA-512 table for the "
+            "Ed25519-style expansion; schnorrkel's definition is transcribed from the package's labels and checked against the repository's "
+            "schnorrkel vector only indirectly (the unchanged tree passes both).",
+            "TLA+ schnorrkel spec over Merlin/Keccak/Ristretto: toy-scale TLC + real-scale TLC trace validation of recorded keys, signatures, verifications, decoders and batch histories",
+            "5/C12"),
 }
 
 NOT_YET = "check not built yet in this round (planned, see DESIGN.md section 11); not claimed until its machinery exists"
